@@ -2,7 +2,7 @@ SPECIFICATION GenSpec
 CONSTANTS
   Alphabet <- Alpha5
   Ranges <- Rng1
-  MaxLen = 6
+  MaxLen = 5
   Limit = 65535
   Chunked = FALSE
   NoRangeLen = 4
